@@ -3,7 +3,7 @@ import itertools
 # Flow-graph nodes are compiled the way props/C15 does it (white-box graph object without scheduler, harness receivers/senders,
 # r1::allocate / submit / execution_slot ... stubbed in the harness, prioritize_task cut); unlike C15 the real aggregator
 # (d1::aggregator_generic::execute / start_handle_operations) is kept: with one caller it runs the handler inline.
-FG = dict(mode='seq', looporder=True, cut=['prioritize_task'], devirt=True, prune=True, inline_threshold=300, m1ptr=True)
+FG = dict(mode='seq', selftest=True, looporder=True, cut=['prioritize_task'], devirt=True, prune=True, inline_threshold=300, m1ptr=True)
 UNITS = {
   'fq': dict(FG, wrapper='w_fnode.cpp', cxxflags=['-DPOL=0']),                      # function_node<int,int,queueing>
   'fr': dict(FG, wrapper='w_fnode.cpp', cxxflags=['-DPOL=1']),                      # ... rejecting
@@ -30,7 +30,7 @@ def seqs18(n, lo, hi):
     """operation lists of length n over {1 = try_put, 8 = run a solver-chosen task}, first op a put, lo..hi puts"""
     return [','.join(('1',) + q) for q in itertools.product('18', repeat=n - 1) if lo <= 1 + q.count('1') <= hi]
 FQ_QUICK = [
-  S(1, '1,1,8,1,8', FIFO=1), S(1, '1,1,1,8,8', FIFO=1, NESTB=1), S(2, '1,1,1,8,8,1'), S(0, '1,1,1,8,8,1'),
+  S(1, '1,1,8,1,8', FIFO=1), S(1, '1,1,1,8,8', FIFO=1, NESTB=1), S(2, '1,1,1,8,8,1'), S(0, '1,1,1,8,8,1'), S(2, '1,1,8,1,1,8'),
   S(1, '1,1,1,2,5,8', FIFO=1), S(2, '6,1,1,8,7,1'), C(1, '1,2,1,9,1,2', '0,1,2', NSUCC=2, FLIPS='1,2', FIFO=1), S(1, '1,1,8,1,8', EXTIN=1, FIFO=1),
 ]
 FQ_THOROUGH = FQ_QUICK + [fifo(S(c, o)) for c in (1, 2, 0) for o in seqs18(6, 3, 4)] + \
@@ -39,7 +39,7 @@ FQ_THOROUGH = FQ_QUICK + [fifo(S(c, o)) for c in (1, 2, 0) for o in seqs18(6, 3,
   [fifo(S(c, o)) for c in (1, 2) for o in ('1,1,1,2,5,8,1', '1,1,5,1,2,3', '6,1,6,8,7,1,7,8', '6,1,1,3,7,2')] + \
   [fifo(C(c, o, '0,1,2,5,6', NSUCC=2, FLIPS='1,2,3')) for c in (1, 2) for o in ('1,2,1,9,1,2', '1,1,2,9,2,1,2', '1,2,9,1,2,9,1,2')]
 FR_QUICK = [
-  S(1, '1,1,8,1,1,8'), S(2, '1,1,1,8,1,8'), S(1, '4,8,8,8', AVAIL=2), S(1, '1,4,1,2,2,2', AVAIL=2), S(1, '1,4,1,3,2,2', AVAIL=2), S(2, '4,8,8,8,8', AVAIL=3), S(1, '1,4,5,8,8', AVAIL=2),
+  S(1, '1,1,8,1,1,8'), S(2, '1,1,1,8,1,8'), S(2, '1,1,8,1,1,8'), S(1, '4,8,8,8', AVAIL=2), S(1, '1,4,1,2,2,2', AVAIL=2), S(1, '1,4,1,3,2,2', AVAIL=2), S(2, '4,8,8,8,8', AVAIL=3), S(1, '1,4,5,8,8', AVAIL=2),
   S(1, '1,1,8', NESTB=1, NESTS=1),
 ]
 FR_THOROUGH = FR_QUICK + [S(c, o) for c in (1, 2) for o in seqs18(6, 3, 4)] + \
@@ -73,8 +73,8 @@ def E(ops, accs, flips, nsucc=2, **kw):
     d.update(kw); return d
 def words(alpha, n, pred=lambda q: True): return [','.join(q) for q in itertools.product(alpha, repeat=n) if pred(q)]
 EQ_QUICK = [
-  E('1,2,10,1,11,10,1,2,2', '0,1,2', '3'), E('1,2,20,1,30,2,20,31,20,2,1,2', '0', '1', nsucc=1), E('1,1,2,11,1,10,10,2,11,1,2', '0,2,5', '3,1'),
-  E('1,2,1,40,2,10,41,1,2', '0,1', '1', MINFLIP=0),
+  E('1,2,10,1,11,10,1,2,2', '0,1,2', '3'), E('1,2,20,1,30,2,20,31,20,2,1,2', '0', '1', nsucc=1), E('1,1,2,11,1,10,10,2,11,1,2', '0,2', '3,1'),
+  E('1,2,1,40,2,10,41,1,2', '0,1', '1', MINFLIP=0), E('1,2,20,11,31,1,2,10', '0', '3'), E('1,1,2,40,1,50,2,2', '0,1', '0', MINFLIP=0), E('1,1,51,2,2', '0,2', '0', nsucc=1, MINFLIP=0),
 ]
 EQ_THOROUGH = EQ_QUICK + [E('1,2,' + w, '0,1,2', '3,1', MINFLIP=0) for w in words(['1', '2', '10', '11'], 4)] + \
   [E('1,2,' + w, '0,2', '1', nsucc=1, MINFLIP=0) for w in words(['1', '2', '20', '30', '31'], 4, lambda q: '20' in q)]
@@ -84,6 +84,7 @@ EBC_THOROUGH = EBC_QUICK + [E('1,' + w, '0,1,2,7', '3,1,2', MINFLIP=0) for w in 
 IN_QUICK = [
   E('1,2,2,2', '3,1,0', '1', nsucc=1, NPROD=2, MINFLIP=0), E('1,2,10,2,10,10,2,2', '0,2', '1', nsucc=1, NPROD=2), E('1,2,20,30,2,20,31,2,20', '0', '1', nsucc=1, NPROD=2),
   E('2,40,1,2,2,11,2', '1,2,0', '3', nsucc=1, NPROD=2, MINFLIP=0), E('1,2,2,10,11,2,2', '1,2,0,3', '3', nsucc=2, NPROD=3, MINFLIP=0),
+  E('1,2,20,11,31,2,2', '0', '3', nsucc=2, NPROD=2),
 ]
 IN_THOROUGH = IN_QUICK + [E('1,2,' + w, '0,1,2', '1', nsucc=1, NPROD=3, MINFLIP=0) for w in words(['2', '10', '20', '31'], 4)] + [E('1,2,20,30,' + w, '0', '1', nsucc=1, NPROD=2, MINFLIP=0) for w in words(['2', '10', '20', '30', '31'], 2)] + \
   [E(w + ',2,2', '1,0', '3', nsucc=1, NPROD=2, MINFLIP=0) for w in words(['1', '2', '40', '41', '10'], 4, lambda q: '1' in q and ('40' in q or '41' in q))]
@@ -117,6 +118,7 @@ HARNESSES += [
 CH_QUICK = [
   {'CONC': 1, 'OPS': '1,2,1,2,2', 'FIFO': 1}, {'CONC': 1, 'OPS': '1,2,1,1,3,3,1,2', 'FIFO': 1, 'EXPECTFLIP': 2}, {'CONC': 1, 'OPS': '1,1,1,2,2,3,2,3', 'FIFO': 1, 'EXPECTFLIP': 2},
   {'CONC': 2, 'OPS': '1,1,1,1,2,3,3,2', 'EXPECTFLIP': 2}, {'CONC': 2, 'OPS': '1,2,1,2,1,3,1,3,3', 'EXPECTFLIP': 2}, {'CONC': 1, 'OPS': '1,1,2,2,5,1,2', 'FIFO': 1}, {'CONC': 0, 'OPS': '1,1,2,3,1'},
+  {'CONC': 1, 'OPS': '1,1,2,9,2,2', 'FIFO': 1, 'LATEEDGE': 1}, {'CONC': 2, 'OPS': '1,2,1,1,9,3,2', 'LATEEDGE': 1},
 ]
 def chain_words(n): return ['1,' + w for w in words('123', n, lambda q: 1 + q.count('1') >= 2 and 1 + q.count('1') <= 4)]
 CH_THOROUGH = CH_QUICK + [{'CONC': 1, 'OPS': o, 'FIFO': 1} for o in chain_words(5) + [w for w in chain_words(6) if w.count('1') == 3]] + [{'CONC': 2, 'OPS': o} for o in chain_words(5)] + \
